@@ -459,10 +459,18 @@ func genC02(o *cw) {
 					continue
 				}
 				o.c("selall", mv, "/", "-", "//a["+lhs+" "+op+" "+rhs+"]", "", "multivalued-cmp")
-				if rhs[0] != '\'' {
-					o.c("selall", mv, "/", "-", "//a["+rhs+" "+op+" "+lhs+"]", "", "multivalued-cmp")
-				}
+				// the literal on the LEFT (string literals with = and != only, see the guard above)
+				o.c("selall", mv, "/", "-", "//a["+rhs+" "+op+" "+lhs+"]", "", "multivalued-cmp")
+				o.c("selall", mv, "/", "-", "//a[not("+rhs+" "+op+" "+lhs+") and true()]", "", "multivalued-cmp")
 				o.c("selall", mv, "/", "-", "//a[not("+lhs+" "+op+" "+rhs+")]", "", "multivalued-cmp")
+			}
+		}
+	}
+	for _, lhs := range []string{"b", "*", "b | c", "@x", "c"} {
+		for _, op := range []string{"=", "!="} {
+			for _, lit := range []string{"''", "'x'", "'3'"} {
+				o.c("selall", mv, "/", "-", "//a["+lit+" "+op+" "+lhs+"]", "", "multivalued-cmp")
+				o.c("selall", mv, "/", "-", "//a["+lhs+" "+op+" "+lit+"]", "", "multivalued-cmp")
 			}
 		}
 	}
